@@ -189,7 +189,16 @@ func runC05(w *W) {
 			}
 			sb.WriteString(src[:spans[0].Start]) // original leading gap (may hold comments)
 			flips := 0
+			// trailing semicolons are layout too: one relayout in four ends the statement at the end of input instead
+			lastReal := len(spans) - 1
+			for lastReal > 0 && spans[lastReal].Tok == token.SEMICOLON {
+				lastReal--
+			}
+			dropSemis := r.Chance(1, 4)
 			for i, sp := range spans {
+				if dropSemis && i > lastReal {
+					continue
+				}
 				text := src[sp.Start:sp.End]
 				// keyword used as a keyword: its spelling does not show up in EXPLAIN
 				// (a soft keyword's spelling must not occur in the EXPLAIN text at all, not even inside a longer word:
@@ -226,12 +235,16 @@ func runC05(w *W) {
 				}
 			}
 			tail := src[spans[len(spans)-1].End:]
-			if r.Chance(1, 4) { // trailing semicolons are layout too: drop the statement's own, so that it ends at the end of input
+			if dropSemis {
 				tail = strings.ReplaceAll(tail, ";", "")
 			}
 			sb.WriteString(tail)
 			// trailing semicolons (only after a newline, in case the statement ends in a line comment)
-			switch r.Intn(5) {
+			tr := r.Intn(5)
+			if dropSemis && tr < 2 {
+				tr = 2 + tr
+			}
+			switch tr {
 			case 0:
 				sb.WriteString("\n;")
 			case 1:
